@@ -344,6 +344,28 @@ def check_uri_string(s):
                     V("serializer-call-differs:" + name, "%s call path gives %r" % (name, back))
         except Exception as x:
             V("serializer-raises:" + name, "%s call path raised %r" % (name, x))
+    # a PYROMETA uri whose tag set is changed IN PLACE after its text form was taken once: the text form follows
+    def _plain(tags):
+        return all(x and not set(x) & set("@, \t\n") for x in tags)
+    if u.protocol == "PYROMETA" and isinstance(u.object, set) and len(u.object) >= 1 and _plain(u.object):
+        # (the degenerate spellings - empty tags, '@' or ',' inside a tag - have findings of their own and are left out here)
+        try:
+            m = copy.copy(u)
+            str(m)
+            m.object.add("zz9")
+            m.object.discard(sorted(m.object)[0])
+            t2 = str(m)
+            back = core.URI(t2)
+            if not (back == m) or _fields(back) != _fields(m):
+                V("text-stale-after-in-place-change", "after tags were added/discarded in place str() gives %r which parses to %r, the uri now is %r" % (t2, _fields(back), _fields(m)))
+            for name, ser in sorted(serializers.serializers.items()):
+                pb = ser.loads(ser.dumps(client.Proxy(m)))
+                if not (pb._pyroUri == m):
+                    V("proxy-serializer-differs:" + name, "proxy of a uri whose tags were changed in place arrives designating %r, sent %r" % (_fields(pb._pyroUri), _fields(m)))
+                    break
+        except Exception as x:
+            if "text-form-rejected" not in repr(viols) and sorted(getattr(u, "object", [])) not in ([], [""]):
+                V("in-place-change-raises", "changing the tag set in place and printing raised %r" % (x,))
     # proxy state path
     try:
         p = client.Proxy(u)
